@@ -45,7 +45,7 @@ TrHeat == /\ HasEvent("Heat") /\ UNCHANGED vars
                  heatmap_not_alpha_below_beta_above |-> ~E.raised /\ ToSet(E.order) = 1..Len(E.seqsA) /\ E.data2d # SplitHeat(ma, mb, E.order) ]))
 
 TrRank == /\ HasEvent("Rank") /\ UNCHANGED vars
-          /\ \E present \in { SelectSeq(E.vals, LAMBDA v : v # 0) } :
+          /\ \E present \in { SelectSeq(E.vals, LAMBDA v : v # Missing) } :
              \E sorted \in { SortSeq(present, LAMBDA a, b : a > b) } :
                Consume(Named([
                  raised |-> E.raised,
